@@ -1,9 +1,58 @@
+import SwayVerif.Model.Fetch
 import SwayVerif.Driver.Util
-/-! Driver for C30 (stub — replace `answer`; keep `run`). -/
+/-!
+Driver for C30 (model: `Model/Fetch.lean`, program `progFixed n` = the code after the `fix:`).
+Cases written by `harness/src/bin/sv_c30.rs`:
+* `points <n> <m> <e> ;; <name#k> …`         fault points passed by an undisturbed fetch, in order
+* `clean <n> <m> <e> <ref> ;; after=<fs> extra=<k> status=<..> result=<..>`
+* `fault <name#k> <err|abort> <n> <m> <e> <lock> <ref> ;; after=<fs> extra=<k> first=<..> next=<..> …`
+agree = the model predicts the same fault points / the same file-system summary after the fault and the same
+decision of the later build; prop = the later build refetched or used the complete checkout.
+-/
 namespace SwayVerif.Driver.C30
-open SwayVerif.Driver
+open SwayVerif.Fetch SwayVerif.Driver
 
-def answer (_line : String) : String := "unimplemented agree=0 prop=0"
+def kvOf (toks : List String) (key : String) : String :=
+  match toks.find? (fun t => t.startsWith (key ++ "=")) with
+  | some t => (t.drop (key.length + 1)).toString
+  | none => "?"
+
+def pointClass (name : String) : String :=
+  if name.startsWith "tmp_repo" then (if name.endsWith "#0" then "pin" else "clone")
+  else if name.startsWith "checkout_progress" then "blob"
+  else if name.startsWith "lock_file" || name.startsWith "fetch_needed" then "entry"
+  else "fetch"
+
+def answer (line : String) : String :=
+  let (c, i) := splitCase line
+  match c with
+  | ["points", n, _, _] =>
+    match n.toNat? with
+    | some n =>
+      let m := pointNames (progFixed n)
+      s!"{" ".intercalate m} agree={b01 (decide (m = i))} prop=1 kind=points n={n}"
+    | none => "bad-case agree=0 prop=0"
+  | ["clean", n, _, _, r] =>
+    match n.toNat? with
+    | some n =>
+      let m := (run n (progFixed n) init).summary
+      let ok := kvOf i "after" == m && kvOf i "extra" == "0" && kvOf i "status" == "exit0"
+        && kvOf i "result" == "ok_compiled=ok"
+      s!"after={m} agree={b01 ok} prop=1 kind=clean n={n} ref={r}"
+    | none => "bad-case agree=0 prop=0"
+  | ["fault", name, mode, n, m, e, lock, r] =>
+    match n.toNat?, m.toNat?, e.toNat?, (if mode == "err" then some Kind.err else if mode == "abort" then some Kind.crash else none) with
+    | some n, some m, some e, some k =>
+      match faultState n (progFixed n) name k with
+      | some t =>
+        let ms := t.summary
+        let mn := (nextBuild n m e t).name
+        let implNext := kvOf i "next"
+        let ok := kvOf i "after" == ms && implNext == mn && kvOf i "extra" == "0"
+        s!"after={ms} next={mn} agree={b01 ok} prop={b01 (propHolds implNext)} kind=fault mode={mode} lock={lock} ref={r} n={n} class={pointClass name} implnext={implNext} state={ms}"
+      | none => s!"unknown-point agree=0 prop={b01 (propHolds (kvOf i "next"))} kind=fault mode={mode}"
+    | _, _, _, _ => "bad-case agree=0 prop=0"
+  | _ => "bad-case agree=0 prop=0"
 
 def run : IO Unit := do
   lineLoop (← IO.getStdin) (← IO.getStdout) answer
